@@ -357,7 +357,16 @@ func runC16(c *Ctx) {
 			w.line(c, "sreg s0 agent T0")
 			w.line(c, "sreg s0 agent T1")
 			w.line(c, "sreg s1 listener K0")
+			w.line(c, "sreg s0 listener K1")
 			w.line(c, "sreg s1 exc2 L1 x1")
+			// the connection that registered its listener FIRST is not the first connection: one of them goes, then the other
+			if r.Bool() {
+				w.line(c, "sclose s1")
+				svc = []string{"s0"}
+			} else {
+				w.line(c, "sclose s0")
+				svc = []string{"s1"}
+			}
 			c.Count("prelude.services")
 		}
 		steps := 5 + r.Intn(12)
